@@ -46,7 +46,7 @@ m = {
         "kind_free_text": "repository-specific static analysers (Go): go/packages type-check of the whole module from source, go/ssa with dominator-based path rules, field-writer, provenance, lockset, hash-coverage, exhaustiveness and loop-stutter engines; VTA call graph for reachability",
     }],
     "checks": checks,
-    "notes": "Every check re-loads /repo's working tree (env ZV_REPO overrides the root only for scratch-copy self tests). Violated obligations that match /verif/known_findings.json print KNOWN-FINDING and do not fail the check.",
+    "notes": "Every check re-loads /repo's working tree (env ZV_REPO overrides the root only for scratch-copy self tests). Violated obligations that match /verif/known_findings.json print KNOWN-FINDING and do not fail the check. The thorough tier runs the same rules with the wider scopes (C02/C06: whole consensus closure; C44: every inferred guard) and then exercises the property's rules on the stored controls: each patch under zv/mutants/<id> (one rule instance broken) and zv/equiv/<id> (behaviour-preserving rewrite) is applied to a scratch copy of the tree under analysis and analysed by the same binary; the CONTROLS line and coverage.controls in the evidence file say how many broken variants were reported and how many equivalent ones stayed silent (a control whose patch no longer applies is skipped). Controls are evidence about the checker and never change the exit status; they make a thorough run take 1-3 minutes per property.",
     "not_applicable": [{"property_id": i, "reason": na[i]} for i in ids if i in na],
 }
 json.dump(m, open(os.path.join(V, "MANIFEST.json"), "w"), indent=1)
